@@ -4,7 +4,7 @@ Helper lemmas are in Proofs/C04*.  Every theorem is about Model/C04 (host) and S
 constants, formats, slice lengths and reply-routing mechanism are regenerated from /repo (Gen/C04).
 `S2F` is CPython's `float(str)` (only reached when a *string* is passed for a float-typed parameter).
 -/
-import CfVerif.Proofs.C04Seq
+import CfVerif.Proofs.C04Nest
 namespace CfVerif.C04
 open CfVerif
 
@@ -417,6 +417,47 @@ theorem no_handler_no_delivery (h : Host) (hn : handlersOf h.pending = []) (q : 
   rw [r5]
   exact (quiet_proj q2).2.2.2.2
 
+/-! ## Re-entrant callbacks: the callback of a misc request calls the API again from inside the reply dispatch
+
+`Scripts`: what each caller callback does when it is called - a list of further API calls (for the same or other parameters,
+any request kind), executed where the handler calls the callback: after the reply was decoded, before the handler unregisters
+itself, inside the dispatch of that packet.  `Sys.runS` is the closed system with such callbacks. -/
+
+/-- Tie A: in every handler the caller's callback runs BEFORE `remove_port_callback` (the model orders them this way; an
+exception escaping the callback therefore leaves the handler registered) -/
+theorem gen_callback_before_unregister : Gen.C04.unregAfterCallback = true := by decide
+
+/-- a nested delivery is the plain delivery followed by the API calls of the callback that ran: the handler registered for a
+request issued from inside the dispatch of packet k never sees packet k (snapshot dispatch) -/
+theorem nested_delivery_is_flat {v2 : Bool} (sc : Scripts) (p4 : Bool) {h1 : Host} {p : Pkt} {x : Pkt × Option Pending}
+    {G1 : List (Pkt × Option Pending)} (hwf : ReqWF v2 x) (hch : p.chan = x.1.chan)
+    (hbody : x.1.chan = 3 → ∃ body, p.data = x.1.data ++ body)
+    (hsub : ((x :: G1).filterMap Prod.snd).Sublist h1.pending) (hkd : KeysDistinct h1.pending (x :: G1))
+    (hclean : ∀ e, Out.cbError e ∉ (oneShotSnapS S2F Variant.code p4 sc true p h1.pending h1 []).2) :
+    FlatOf S2F Variant.code p4 sc h1 p :=
+  snapS_flat S2F Variant.code gen_misc_routing.1 p4 sc hwf hch hbody hsub hkd hclean
+
+/-- For EVERY history of the closed system with re-entrant callbacks (any scripts, nested to any depth over time) in which no
+callback raises and overlapping requests satisfy `DistinctAlongS`: requests - including those issued from inside a dispatch,
+at the moment their callback runs - go on the wire in issue order, one at a time, each answered before the next; and the misc
+callbacks invoked are exactly what the handler of the k-th issued request does with the k-th delivered reply. -/
+theorem nested_fifo_and_attribution (sc : Scripts) (s0 : Sys) (h0 : s0.Idle) (evs : List Ev) (s : Sys) (outs : List Out)
+    (hrun : Sys.runS S2F Variant.code sc s0 evs = some (s, outs)) (hd : DistinctAlongS S2F Variant.code sc s0 [] evs)
+    (hclean : ∀ er, Out.cbError er ∉ outs) :
+    txsOf outs ++ s.host.cur.toList ++ s.host.queue = (enqsOf outs).map Prod.fst ∧
+    (altRun s0.dev.v2 none (obsOf outs)).isSome = true ∧
+    answersZip s0.dev.v2 (txsOf outs) (solicited (rxdsOf outs)) = true ∧
+    miscCallsOf outs = expectedMisc (enqsOf outs) (solicited (rxdsOf outs)) := by
+  obtain ⟨hi0, ha0⟩ := Inv.init h0
+  rw [code_variant] at hrun hd
+  obtain ⟨A, G, W, hi, ha⟩ := runS_inv S2F _ rfl rfl sc evs s0 [] [] [] [] hi0 ha0 s outs hrun hd hclean
+  simp only [List.nil_append] at hi ha
+  refine ⟨?_, ?_, hi.ans, ?_⟩
+  · rw [hi.enq, List.map_append, hi.gq, hi.txs]; simp
+  · obtain ⟨st, h1, _⟩ := hi.alt
+    rw [h1]; rfl
+  · rw [ha.misc, hi.enq, expectedMisc_append_unmatched A G _ hi.rx]
+
 /-! ## The retransmission path (`Crazyflie.send_packet` on a `needs_resending` link)
 
 `SysR` adds `_answer_patterns`, the retry timers and `_check_for_answers`; a timer is two events (`expire`: it woke up and can no
@@ -528,6 +569,24 @@ theorem stale_same_id_counterexample :
     runX7 (set10 ++ [.ev (.api 0 (.setValue [1, 0] (.int 20) false)), .ev .updGet, .ev .updSend, dup10, .ev .deliver]) =
       some ([.update 7 [1, 0] (.int 10), .update 7 [1, 0] (.int 10)], [[20], [2], [3]], [.ret (.int 10)]) := by
   decide +kernel
+
+/-! ## Re-entrant callbacks, concretely -/
+
+/-- the state callback (id 1) of `persistent_get_state(p0)` stores p0 and asks for its state again (callbacks 2 and 3) -/
+def reScripts : Scripts := fun r => if r = 1 then [.store [1, 0] (some 2), .getState [1, 0] 3] else []
+def miscRunS (v : Variant) (evs : List Ev) : Option (List Out) := (Sys.runS noS2F v reScripts cxSys evs).map fun r => miscCallsOf r.2
+def reEvs : List Ev := [.api 0 (.getState [1, 0] 1)] ++ pump ++ pump ++ pump
+
+/-- snapshot dispatch (the code): every callback once, with the reply to its own request; the second query sees "stored" -/
+example : miscRunS Variant.code reEvs =
+    some [.misc 1 [1, 0] (.state (some (false, .int 10, none))), .misc 2 [1, 0] (.status true),
+          .misc 3 [1, 0] (.state (some (true, .int 10, some (.int 1))))] := by decide +kernel
+/-- live-list dispatch (D7 undone): the handler registered DURING the dispatch of the first reply consumes that old reply
+("not stored") before its own request was even transmitted -/
+theorem live_dispatch_reentrant_counterexample :
+    miscRunS { routing := 1, snap := false } reEvs =
+      some [.misc 1 [1, 0] (.state (some (false, .int 10, none))), .misc 3 [1, 0] (.state (some (false, .int 10, none))),
+            .misc 2 [1, 0] (.status true)] := by decide +kernel
 
 /-! ## Sequential requests, concretely -/
 
